@@ -11,6 +11,9 @@
 (*   property : Sound       -- a finished execution ends in the postcondition                    *)
 (*              ExecAgrees  -- the big-step function Exec used by the trace specification agrees *)
 (*                             with the machine                                                  *)
+(*   history  : st = "ann": a command object annotated for a triple; ReAnnotate / ReInvariant    *)
+(*              annotate the SAME object again (reference: history-free), Start executes it when  *)
+(*              its current conditions all hold                                                  *)
 (* One extra initial state (st = "emit") writes the whole universe as vectors for the driver.    *)
 EXTENDS C20_HoareSem, SequencesExt, Json, IOUtils
 
@@ -138,8 +141,8 @@ Flagged == { [t |-> t, nfail |-> RefFailing(t)] : t \in ITriples \cup NTriples }
 \* A state keeps what execution and the properties need: the program without its annotations (execution ignores
 \* invariants), the postcondition, the initial and the current store, the continuation.  Triples that differ only in
 \* annotations / preconditions share their executions.
-VARIABLES prog, post, s0, kont, s, st
-vars == <<prog, post, s0, kont, s, st>>
+VARIABLES prog, post, s0, kont, s, st, h
+vars == <<prog, post, s0, kont, s, st, h>>
 RECURSIVE Strip(_), HasLoop(_)
 Strip(c) == CASE c[1] \in {"skip", "asg"} -> c
               [] c[1] = "seq" -> <<"seq", Strip(c[2]), Strip(c[3])>>
@@ -156,14 +159,46 @@ EqGuards(c) == CASE c[1] \in {"skip", "asg"} -> TRUE
                  [] c[1] = "if" -> c[2][1] \in {"==", "!="} /\ EqGuards(c[3]) /\ EqGuards(c[4])
                  [] c[1] = "while" -> c[2][1] \in {"==", "!="} /\ EqGuards(c[4])
 SemVectors == UNION { { [prog |-> c, s0 |-> s0_] : s0_ \in { s1 \in BoxOf(0, 2) : Run(c, s1)[1] = "ok" } } : c \in { c \in NProgs : EqGuards(c) } }
+\* ---------------------------------------------------------------- annotation history
+\* imperative/com.py keeps the annotations (pre/post chains) ON the command object, and clients re-annotate one parsed
+\* object: c.pre = [P]; c.compute_wp(Q); c.get_vcs(..) -- then again with another precondition, postcondition or
+\* invariant.  The reference is history-free: re-annotating an object yields the conditions of a fresh object.
+\*   h = [pre, post : the triple the object is currently annotated for;  ok : all its current conditions hold;  n : #annotations]
+RECURSIVE SetInv(_, _)
+SetInv(c, i) == CASE c[1] = "while" -> <<"while", c[2], i, c[4]>>
+                  [] c[1] = "seq" -> IF HasLoop(c[2]) THEN <<"seq", SetInv(c[2], i), c[3]>> ELSE <<"seq", c[2], SetInv(c[3], i)>>
+                  [] c[1] = "if" -> IF HasLoop(c[3]) THEN <<"if", c[2], SetInv(c[3], i), c[4]>> ELSE <<"if", c[2], c[3], SetInv(c[4], i)>>
+                  [] OTHER -> c
+NoH == [pre |-> True, post |-> True, ok |-> FALSE, n |-> 0]
+AnnVCs(old, c, P, Q) == RefVCs(P, c, Q)
+AnnOK(old, c, P, Q) == \A vc \in AnnVCs(old, c, P, Q) : HoldsOn(vc, BoxOf(IntLo, IntHi))
+HistInvs == { IBoxed(IAssSeq[i]) : i \in 1..(IF Deep THEN 3 ELSE 2) }
+HistPres == { IBoxed(IAssSeq[i]) : i \in 1..(IF Deep THEN 3 ELSE 2) }          \* box (weakest), box & 0 <= x, box & x == 0
+HistPosts == { IAssSeq[i] : i \in 1..(IF Deep THEN 3 ELSE 2) }
+HistProgs ==
+  LET a1 == IAsgSeq[1]  a2 == IAsgSeq[2]  a3 == IAsgSeq[3]  g == IGrdSeq[1]
+      w(i) == While(g, i, a3)
+      i2 == IBoxed(IAssSeq[2])
+  IN { a1, a3, SeqC(a1, a2), If(g, a3, Skip), SeqC(a1, If(Lt(X, N(2)), Asg("y", N(1)), Asg("y", N(0)))) }
+     \cup { w(i) : i \in HistInvs } \cup { SeqC(a1, w(i)) : i \in HistInvs }
+     \cup { SeqC(w(i2), a1), While(g, i2, If(g, a3, Skip)), If(g, w(i2), Skip) }
+\* histories of two annotations for the driver: (P1, Q1) then (P2, Q2), or the same triple after a change of the invariant
+\* of the first loop (inv2; <<"true">> = unchanged)
+HistVectors == { [prog |-> c, p1 |-> P1, q1 |-> Q1, p2 |-> P2, q2 |-> Q2, inv2 |-> True]
+                   : c \in HistProgs, P1 \in HistPres, Q1 \in HistPosts, P2 \in HistPres, Q2 \in HistPosts }
+               \cup { [prog |-> c, p1 |-> P1, q1 |-> Q1, p2 |-> P1, q2 |-> Q1, inv2 |-> i]
+                   : c \in { d \in HistProgs : HasLoop(d) }, P1 \in HistPres, Q1 \in HistPosts, i \in HistInvs }
 Emit(all) == /\ LET vs == SetToSeq({ [dom |-> f.t.dom, prog |-> f.t.prog, pre |-> f.t.pre, post |-> f.t.post, nfail |-> f.nfail] : f \in all })
                   IN ndJsonSerialize(IOEnv.VECTOR_FILE, vs)
              /\ ndJsonSerialize(IOEnv.VECTOR_FILE_SEM, SetToSeq(SemVectors))
+             /\ ndJsonSerialize(IOEnv.VECTOR_FILE_HIST, SetToSeq(HistVectors))
              /\ PrintT(<<"C20stats", Cardinality(ITriples), Cardinality(NTriples), Cardinality(SemVectors),
                          Cardinality({ f \in all : f.nfail = 0 }), Cardinality({ f \in all : f.nfail = 0 /\ HasLoop(f.t.prog) })>>)
 Init == LET all == Flagged IN
-        \/ /\ st = "emit" /\ prog = Skip /\ post = True /\ s0 = ZeroStore /\ s = ZeroStore /\ kont = <<>> /\ Emit(all)
-        \/ /\ st = "run"
+        \/ /\ st = "emit" /\ prog = Skip /\ post = True /\ s0 = ZeroStore /\ s = ZeroStore /\ kont = <<>> /\ h = NoH /\ Emit(all)
+        \/ /\ st = "ann" /\ prog \in HistProgs /\ post \in HistPosts /\ s0 = ZeroStore /\ s = ZeroStore /\ kont = <<>>
+           /\ \E P \in HistPres : h = [pre |-> P, post |-> post, ok |-> AnnOK(NoH, prog, P, post), n |-> 1]
+        \/ /\ st = "run" /\ h = NoH
            /\ \E f \in { g \in all : g.nfail = 0 } :
                  /\ prog = Strip(f.t.prog) /\ post = f.t.post
                  /\ s0 \in { s1 \in BoxD(f.t.dom) : EvalB(f.t.pre, s1) }
@@ -178,8 +213,23 @@ Step == /\ st = "run"
                [] c[1] = "seq" -> kont' = <<c[2], c[3]>> \o rest /\ UNCHANGED <<s, st>>
                [] c[1] = "if" -> kont' = <<IF EvalB(c[2], s) THEN c[3] ELSE c[4]>> \o rest /\ UNCHANGED <<s, st>>
                [] c[1] = "while" -> kont' = (IF EvalB(c[2], s) THEN <<c[4], c>> \o rest ELSE rest) /\ UNCHANGED <<s, st>>
-        /\ UNCHANGED <<prog, post, s0>>
-Next == Step
+        /\ UNCHANGED <<prog, post, s0, h>>
+\* the same object is annotated again: for another precondition and/or postcondition ...
+ReAnnotate == /\ st = "ann" /\ h.n < 2
+              /\ \E P \in HistPres, Q \in HistPosts :
+                    /\ h' = [pre |-> P, post |-> Q, ok |-> AnnOK(h, prog, P, Q), n |-> h.n + 1] /\ post' = Q
+              /\ UNCHANGED <<prog, s0, kont, s, st>>
+\* ... or for the same triple after the invariant of its first loop was replaced
+ReInvariant == /\ st = "ann" /\ h.n < 2 /\ HasLoop(prog)
+               /\ \E i \in HistInvs :
+                     /\ prog' = SetInv(prog, i)
+                     /\ h' = [h EXCEPT !.ok = AnnOK([h EXCEPT !.post = True], SetInv(prog, i), h.pre, h.post), !.n = h.n + 1]
+               /\ UNCHANGED <<post, s0, kont, s, st>>
+\* the current annotation is accepted (all its conditions hold): run the program from a store of its precondition
+Start == /\ st = "ann" /\ h.ok
+         /\ \E s1 \in { s2 \in BoxOf(IntLo, IntHi) : EvalB(h.pre, s2) } : s0' = s1 /\ s' = s1
+         /\ prog' = Strip(prog) /\ kont' = <<Strip(prog)>> /\ st' = "run" /\ h' = NoH /\ UNCHANGED post
+Next == Step \/ ReAnnotate \/ ReInvariant \/ Start
 Spec == Init /\ [][Next]_vars
 
 \* ---------------------------------------------------------------- properties
